@@ -3,7 +3,7 @@ from __future__ import annotations
 
 import importlib
 
-MODULES = ["repartition", "partitions", "layers", "decisions", "divisions"]
+MODULES = ["repartition", "partitions", "layers", "decisions", "divisions", "parquet_stats"]
 
 
 def all_specs():
